@@ -135,6 +135,19 @@ class C08(CaseCheck):
             v(leafhex=flip(bytes.fromhex(lf), rng.randrange(8 * len(lf) // 2)).hex(), must=False)
             v(leafhex=lf + "00", must=False)
             v(r=flip(bytes.fromhex(root), rng.randrange(256)).hex(), must=False)
+            # structured root edits: the same mask xor-ed into two bytes (defeats an xor-accumulating compare),
+            # two bytes swapped, a flip in the last byte, everything complemented
+            rb = bytearray(bytes.fromhex(root))
+            i1, i2 = rng.sample(range(32), 2)
+            m = rng.randrange(1, 256)
+            r2 = bytearray(rb); r2[i1] ^= m; r2[i2] ^= m
+            v(r=bytes(r2).hex(), must=False)
+            if rb[i1] != rb[i2]:
+                r3 = bytearray(rb); r3[i1], r3[i2] = r3[i2], r3[i1]
+                v(r=bytes(r3).hex(), must=False)
+            r4 = bytearray(rb); r4[31] ^= 1
+            v(r=bytes(r4).hex(), must=False)
+            v(r=bytes(b ^ 0xFF for b in rb).hex(), must=False)
             for j in range(len(segs)):
                 if len(segs) <= 4 or rng.random() < 0.4:
                     m = list(segs)
